@@ -1016,3 +1016,85 @@ B("c15-benign-reset-on-refusal", "C15", "m3/thriftudp/transport.go",
 		return thrift.NewTTransportException""", """	if p.writeBuf.Len()+1 > MaxLength {
 		p.writeBuf.Reset()
 		return thrift.NewTTransportException""")
+
+# ---------------------------------------------------------------- C17 prometheus
+M("c17-revert-kind-mismatch", "C17", "prometheus/reporter.go",
+  """		if h.histogram == nil {
+			return nil, errTimerKindMismatch
+		}
+""", "", expect="O1 union-nil")
+M("c17-wrong-variant-tested", "C17", "prometheus/reporter.go",
+  """		if s.summary == nil {
+			return nil, errTimerKindMismatch
+		}""", """		if s.histogram != nil {
+			return nil, errTimerKindMismatch
+		}""", expect="O1 union-nil")
+M("c17-no-return-after-callback", "C17", "prometheus/reporter.go",
+  """	counterVec, err := r.counterVec(name, tagKeys, name+" counter")
+	if err != nil {
+		r.onRegisterError(err)
+		return noopMetric{}
+	}""", """	counterVec, err := r.counterVec(name, tagKeys, name+" counter")
+	if err != nil {
+		r.onRegisterError(err)
+	}""", expect="O2 allocator")
+M("c17-callback-dropped", "C17", "prometheus/reporter.go",
+  """	gaugeVec, err := r.gaugeVec(name, tagKeys, name+" gauge")
+	if err != nil {
+		r.onRegisterError(err)
+		return noopMetric{}
+	}""", """	gaugeVec, err := r.gaugeVec(name, tagKeys, name+" gauge")
+	if err != nil {
+		return noopMetric{}
+	}""", expect="O2 allocator")
+M("c17-nil-handle-on-error", "C17", "prometheus/reporter.go",
+  """	histogramVec, err := r.histogramVec(name, tagKeys, name+" histogram", buckets.AsValues())
+	if err != nil {
+		r.onRegisterError(err)
+		return noopMetric{}
+	}""", """	histogramVec, err := r.histogramVec(name, tagKeys, name+" histogram", buckets.AsValues())
+	if err != nil {
+		r.onRegisterError(err)
+		return nil
+	}""", expect="O2 allocator")
+M("c17-timer-wrong-bound-method", "C17", "prometheus/reporter.go",
+  "			t.reportTimer = t.reportTimerSummary\n", "			t.reportTimer = t.reportTimerHistogram\n", expect="O2 allocator")
+M("c17-histogram-handle-wrong-field", "C17", "prometheus/reporter.go",
+  "	return &cachedMetric{histogram: histogramVec.With(tags)}", "	return &cachedMetric{summary: histogramVec.With(tags)}", expect="O2 allocator")
+M("c17-rlock-probe", "C17", "prometheus/reporter.go",
+  """	r.Lock()
+	defer r.Unlock()
+
+	if ctr, ok := r.counters[id]; ok {
+		return ctr, nil
+	}
+""", """	r.RLock()
+	if ctr, ok := r.counters[id]; ok {
+		r.RUnlock()
+		return ctr, nil
+	}
+	r.RUnlock()
+
+	r.Lock()
+	defer r.Unlock()
+""", expect="O3 exclusive-section")
+M("c17-observe-off-by-one", "C17", "prometheus/reporter.go",
+  "	for i := int64(0); i < value; i++ {", "	for i := int64(1); i < value; i++ {", expect="O4 observe")
+M("c17-nanoseconds", "C17", "prometheus/reporter.go",
+  "	upperBound := float64(bucketUpperBound) / float64(time.Second)", "	upperBound := float64(bucketUpperBound)", expect="O4 observe-seconds")
+M("c17-milliseconds", "C17", "prometheus/reporter.go",
+  "	m.summary.Observe(float64(interval) / float64(time.Second))", "	m.summary.Observe(float64(interval) / float64(time.Millisecond))", expect="O4 observe-seconds")
+M("c17-none-panics", "C17", "prometheus/config.go",
+  """		case "none":
+			opts.OnRegisterError = func(err error) {}""", """		case "none":
+			opts.OnRegisterError = func(err error) { panic(err) }""", expect="O5 callback-table")
+M("c17-log-case-dropped", "C17", "prometheus/config.go",
+  """		case "log":
+			opts.OnRegisterError = func(err error) {
+				log.Printf("tally prometheus reporter error: %v\\n", err)
+			}
+""", """		case "log2":
+			opts.OnRegisterError = func(err error) {
+				log.Printf("tally prometheus reporter error: %v\\n", err)
+			}
+""", expect="O5 callback-table")
